@@ -216,6 +216,38 @@ def exhaustive_scripts(length, feats=(), caps=(1, 2)):
     return out
 
 
+def endings_scripts(feats=(), caps=(1, 2)):
+    """Every combination of (on_run history) x (messages handled before) x (termination cause) x
+    (on_stop outcome), per capacity - the quantifier of C05 ("every combination of termination
+    cause and hook outcome") enumerated rather than sampled.  Hooks are automatic (Ok unless an
+    outcome is posted); the outcome posted before the cause is consumed by the next hook that
+    runs, i.e. on_stop."""
+    out = []
+    for cap in caps:
+        for runs in ([], ["true"], ["false"], ["true", "false"], ["true", "true"]):
+            for msgs in (0, 1, 2):
+                for cause in ("stop", "kill", "drop", "run 0 err:3", "run 0 panic"):
+                    for stopout in ("ok", "err:7", "panic"):
+                        lines = [feat_line(feats), "spawn %d 1" % cap]
+                        lines += ["run 0 %s" % r for r in runs]
+                        o = 0
+                        for _ in range(msgs):
+                            o += 1
+                            lines.append("op %d tell 0 -" % o)
+                        lines.append("hook 0 %s" % stopout)
+                        if cause == "stop":
+                            lines.append("op %d stop 0 -" % (o + 1))
+                        elif cause == "kill":
+                            lines.append("kill 0")
+                        elif cause == "drop":
+                            lines.append("drop 0")
+                        else:
+                            lines.append(cause)
+                        lines.append("advance 1")
+                        out.append(lines)
+    return out
+
+
 def gen_script(seed, family, length=None, feats=()):
     rng = random.Random(seed)
     g = Gen(rng, family, feats)
